@@ -195,4 +195,20 @@ def subOptionValue (tuples : List (UInt8 × Bytes)) (c : UInt8) : Option Bytes :
 def relay (v : Bytes) : Option (UInt8 → Option Bytes) :=
   (subOptions v).map subOptionValue
 
+/-- RFC 3046 §2.0 read to the letter: every octet of the field belongs to a
+SubOpt/Len/Value tuple and codes 0 and 255 are ordinary sub-option codes.
+The library does NOT implement this reading (see `subOptions`); it is kept
+to state precisely where the two differ (`C17_RelayAgentInfo_strict_*`). -/
+def subOptionsStrict : Bytes → Option (List (UInt8 × Bytes))
+  | [] => some []
+  | [_] => none
+  | c :: n :: rest =>
+    if rest.length < n.toNat then none
+    else (subOptionsStrict (rest.drop n.toNat)).map (fun t => (c, rest.take n.toNat) :: t)
+termination_by b => b.length
+decreasing_by simp; omega
+
+def relayStrict (v : Bytes) : Option (UInt8 → Option Bytes) :=
+  (subOptionsStrict v).map subOptionValue
+
 end Dhcp.Spec.Val4
